@@ -228,6 +228,13 @@ class Agg:
         self.skipped = 0
 
     def add(self, config, item, res, keep_digests=False):
+        try:
+            self._add(config, item, res, keep_digests)
+        except (TypeError, ValueError, AttributeError, KeyError):
+            # a child whose heap was corrupted can return a well-formed JSON document with nonsense inside
+            self.crashes.append((config, item, {'crash': -98, 'partial': 'malformed result from the child process'}))
+
+    def _add(self, config, item, res, keep_digests=False):
         if res is None:
             return
         if res.get('harness_error'):
